@@ -396,45 +396,47 @@ def run_impl(cases, after_fork=None):
 # model side
 # --------------------------------------------------------------------------
 def model_run(cases, sort, batch=250):
-    """one cg.batch line per `batch` cases: policies and requests are sent once per line (pool indices in the
-    histories) because parsing dominates the model's cost.  -> decoded answer per case"""
-    lines = []
-    for i in range(0, len(cases), batch):
-        pols, reqs, pix, rix = [], [], {}, {}
+    """one cg.batch line per `batch` cases with the same fact table: policies and requests are sent once per line
+    (pool indices in the histories) because parsing dominates the model's cost.  -> decoded answer per case"""
+    groups = {}
+    for ix, case in enumerate(cases):
+        groups.setdefault(canon(case.get("facts") or []), []).append(ix)
+    lines, owners = [], []
+    for _, ixs in sorted(groups.items()):
+        for i in range(0, len(ixs), batch):
+            part = ixs[i:i + batch]
+            pols, reqs, pix, rix = [], [], {}, {}
 
-        def intern(x, pool, ix):
-            k = ordered(x)
-            if k not in ix:
-                ix[k] = len(pool)
-                pool.append(x)
-            return ix[k]
+            def intern(x, pool, ix):
+                k = ordered(x)
+                if k not in ix:
+                    ix[k] = len(pool)
+                    pool.append(x)
+                return ix[k]
 
-        enc_cases = []
-        facts = None
-        for case in cases[i:i + batch]:
-            spec = case["cache"]
-            mspec = ["lru", spec[1]] if spec[0] == "lru" else ["dict"]
-            f = case.get("facts") or []
-            if facts is None:
-                facts = f
-            elif f != facts:
-                raise ValueError("one batch, one fact table")
-            g = lambda x: [bool(x["strict"]), intern(x["policy"], pols, pix), x["ttl"]]  # noqa: E731
-            h = []
-            for op in case["h"]:
-                if op[0] == "e":
-                    h.append(["e", bool(op[1]), intern(op[2], reqs, rix)])
-                elif op[0] == "p":
-                    h.append(["p", bool(op[1]), intern(op[2], pols, pix)])
-                elif op[0] == "c":
-                    h.append(["c", bool(op[1])])
-                else:
-                    h.append(["t", op[1]])
-            enc_cases.append([mspec, spec[0] == "pickle", g(case["g1"]), g(case["g2"]), h])
-        lines.append(lib.model_call("cg.batch", bool(sort), facts or [], pols, reqs, enc_cases))
-    out = []
-    for o in lib.run_model(RUNNER, lines, chunk=1, procs=12):
-        out.extend(lib.dec(o))
+            enc_cases = []
+            for j in part:
+                case = cases[j]
+                spec = case["cache"]
+                mspec = ["lru", spec[1]] if spec[0] == "lru" else ["dict"]
+                g = lambda x: [bool(x["strict"]), intern(x["policy"], pols, pix), x["ttl"]]  # noqa: E731
+                h = []
+                for op in case["h"]:
+                    if op[0] == "e":
+                        h.append(["e", bool(op[1]), intern(op[2], reqs, rix)])
+                    elif op[0] == "p":
+                        h.append(["p", bool(op[1]), intern(op[2], pols, pix)])
+                    elif op[0] == "c":
+                        h.append(["c", bool(op[1])])
+                    else:
+                        h.append(["t", op[1]])
+                enc_cases.append([mspec, spec[0] == "pickle", g(case["g1"]), g(case["g2"]), h])
+            lines.append(lib.model_call("cg.batch", bool(sort), cases[part[0]].get("facts") or [], pols, reqs, enc_cases))
+            owners.append(part)
+    out = [None] * len(cases)
+    for part, o in zip(owners, lib.run_model(RUNNER, lines, chunk=1, procs=12)):
+        for j, m in zip(part, lib.dec(o)):
+            out[j] = m
     return out
 
 
@@ -576,10 +578,35 @@ def describe(op):
     return "clock += %s s" % op[1]
 
 
+def has_nonjson(x):
+    if isinstance(x, dict):
+        return any(not isinstance(k, str) or has_nonjson(v) for k, v in x.items())
+    if isinstance(x, list):
+        return any(has_nonjson(v) for v in x)
+    return not (x is None or isinstance(x, (bool, int, float, str)))
+
+
+def observe(chk, case):
+    """corpus entries marked observe_only: histories OUTSIDE the statement's quantifier (they must contain a value that
+    is not JSON).  Run on the implementation only; a difference is recorded in the evidence, never reported."""
+    res = _shard([strip(case)])[0]
+    diff = [i for i, r in enumerate(res) if canon(r["cached"]) != canon(r["uncached"])]
+    chk.count("observation:nonjson_key_collision:" + ("reproduced" if diff else "not_reproduced"))
+    chk.extra.setdefault("observations_outside_quantifier", []).append(
+        {"what": case.get("what", "non-JSON value in a request"), "cached_differs_from_uncached_at_evaluations": diff,
+         "answers": lib.jsonable(res)})
+
+
 def check_cases(chk, cases, replay=False):
     sort = detect_sort()
     chk.extra["model_switch_sort_keys"] = sort
     cases = [expand(c) for c in cases]
+    for c in cases:
+        if c.get("observe_only") and has_nonjson([op[2] for op in c["h"] if op[0] == "e"]):
+            observe(chk, c)
+    cases = [c for c in cases if not (c.get("observe_only") and has_nonjson([op[2] for op in c["h"] if op[0] == "e"]))]
+    if not cases:
+        return
     box = {}
 
     def _model():
@@ -778,8 +805,11 @@ def corpus_cases():
         for f in sorted(d.glob("*.json")):
             data = json.loads(f.read_text())
             for c in data.get("cases", []):
+                what = c.get("what")
                 c = lib.unjson(c["case"] if "case" in c else c)
                 c["fam"] = "corpus:" + f.stem
+                if data.get("observe_only"):
+                    c["observe_only"], c["what"] = True, what
                 out.append(c)
     return out
 
@@ -807,9 +837,10 @@ def run(chk):
                 "all histories of length <= 4 (thorough: <= 5) over the 9-letter one-guard alphabet {eval r1..r4, set A, set B, "
                 "clear, tick past, tick below} for each of 7 quadruples of near-duplicate requests (1 / 1.0 / True / '1'; role "
                 "order and roles-vs-attribute; key order of an object-valued attribute; contexts deciding obligations; id types "
-                "and id-vs-attribute) with DefaultInMemoryCache(2), cache_ttl=2; all histories of length <= 3 (thorough: <= 4) "
-                "over the 12-letter two-guard alphabet for second guard = other policy / same policy in the other type mode, "
-                "caches LRU(1), LRU(2), dict, pickling; all unordered pairs of the %d-request pool; A->B->A replacement scripts; a "
+                "and id-vs-attribute) with DefaultInMemoryCache(2), cache_ttl=2; all histories of length <= 3 (thorough: <= 4 "
+                "for three of the quadruples) over the 12-letter two-guard alphabet for second guard = other policy / same "
+                "policy in the other type mode, caches LRU(1), LRU(2), dict, pickling; thorough also length <= 4 one-guard "
+                "histories on LRU(1) strict, LRU(64) no TTL, dict, pickling; all unordered pairs of the %d-request pool; A->B->A replacement scripts; a "
                 "seeded sample of words across capacities {0,1,2,64}, TTL {None,0,2}, both type modes, one/two guards; seeded "
                 "random histories of length <= 60 over 14 policies (first-applicable / deny- / permit-overrides, policy sets, "
                 "obligations that fail and succeed, rel, between). Every evaluation is compared with a fresh uncached Guard "
@@ -834,12 +865,14 @@ def run(chk):
     fams = [enum_family(one, QUAD_NAMES, 4 if quick else 5, "enum1")]
     two_cfgs = [cfg(("lru", 2), TTL, False, two="other"), cfg(("lru", 1), TTL, False, two="same", strict2=True),
                 cfg(("dict",), None, False, two="other", strict2=True), cfg(("pickle",), TTL, True, two="same", strict2=False)]
-    qsel = ["num", "meta", "ctx"] if quick else QUAD_NAMES
+    qsel = ["num", "meta", "ctx"]
     for c2 in two_cfgs:
         fams.append(enum_family(c2, qsel, 3 if quick else 4, "enum2"))
+        if not quick:
+            fams.append(enum_family(c2, [q for q in QUAD_NAMES if q not in qsel], 3, "enum2"))
     if not quick:
         for c1 in (cfg(("lru", 1), TTL, True), cfg(("lru", BIG), None, False), cfg(("dict",), TTL, False), cfg(("pickle",), 0, True)):
-            fams.append(enum_family(c1, QUAD_NAMES, 4, "enum1b"))
+            fams.append(enum_family(c1, qsel, 4, "enum1b"))
     for fam in fams:
         for ch in chunks(fam, 6000):
             if stop_early(chk):
@@ -850,7 +883,7 @@ def run(chk):
         for ch in chunks(gen, 6000):
             if not stop_early(chk):
                 check_cases(chk, ch)
-    n_s, n_r = (5000, 700) if quick else (120000, 12000)
+    n_s, n_r = (5000, 700) if quick else (60000, 6000)
     for ch in chunks(sample_family(rng, all_configs(), n_s, 3, 6, "sample"), 6000):
         if not stop_early(chk):
             check_cases(chk, ch)
